@@ -1340,8 +1340,8 @@ where
                     loc.sample(format!("{} model bytes {}", what(), hex(&want)));
                 }
                 match &*repr {
-                    SwRepr::Aff(p) => check_ser(loc, "sw_shipped/affine_serialize", &what, p, cm, &want),
-                    SwRepr::Proj(p) => check_ser(loc, "sw_shipped/projective_serialize", &what, p, cm, &want),
+                    SwRepr::Aff(p) => check_ser(loc, &format!("{name}/affine_serialize"), &what, p, cm, &want),
+                    SwRepr::Proj(p) => check_ser(loc, &format!("{name}/projective_serialize"), &what, p, cm, &want),
                 }
                 let mut ext = want.clone();
                 ext.push(0xa5);
@@ -1352,14 +1352,14 @@ where
                 let gp = sw::Projective::<P>::deserialize_with_mode(&mut rd, cm, vm);
                 let pos_p = rd.pos;
                 if vm == Validate::No || in_sub {
-                    loc.check_at("sw_shipped/affine_deserialize", matches!(&ga, Ok(p) if sw_same_aff(p, &val)) && pos_a == want.len(), || {
+                    loc.check_at(&format!("{name}/affine_deserialize"), matches!(&ga, Ok(p) if sw_same_aff(p, &val)) && pos_a == want.len(), || {
                         format!("{}: bytes {} read back as {:?}, consumed {pos_a} of {}", what(), hex(&want), ga.as_ref().map_err(|e| e.to_string()), want.len())
                     });
-                    loc.check_at("sw_shipped/projective_deserialize", matches!(&gp, Ok(p) if sw_same_proj(p, &val)) && pos_p == want.len(), || {
+                    loc.check_at(&format!("{name}/projective_deserialize"), matches!(&gp, Ok(p) if sw_same_proj(p, &val)) && pos_p == want.len(), || {
                         format!("{}: bytes {} read back as {:?}, consumed {pos_p} of {}", what(), hex(&want), gp.as_ref().map_err(|e| e.to_string()), want.len())
                     });
                 } else {
-                    loc.check_at("sw_shipped/deserialize_checked_outside_subgroup", ga.is_err() && gp.is_err(), || {
+                    loc.check_at(&format!("{name}/deserialize_checked_outside_subgroup"), ga.is_err() && gp.is_err(), || {
                         format!("{}: encoding {} of a curve point outside the subgroup accepted by a checked mode", what(), hex(&want))
                     });
                 }
@@ -1375,7 +1375,7 @@ where
                     2 => v2 == want && sw::Affine::<P>::deserialize_uncompressed(&v2[..]).ok() == ga.ok(),
                     _ => v2 == want && sw::Affine::<P>::deserialize_uncompressed_unchecked(&v2[..]).ok() == ga.ok(),
                 };
-                loc.check_at("sw_shipped/convenience_methods", ok && conv, || format!("{}: serialize_compressed/uncompressed or deserialize_* differ from the with_mode forms", what()));
+                loc.check_at(&format!("{name}/convenience_methods"), ok && conv, || format!("{}: serialize_compressed/uncompressed or deserialize_* differ from the with_mode forms", what()));
             }));
         }
     }
@@ -1474,8 +1474,8 @@ where
                     loc.sample(format!("{} model bytes {}", what(), hex(&want)));
                 }
                 match &*repr {
-                    TeRepr::Aff(p) => check_ser(loc, "te_shipped/affine_serialize", &what, p, cm, &want),
-                    TeRepr::Proj(p) => check_ser(loc, "te_shipped/projective_serialize", &what, p, cm, &want),
+                    TeRepr::Aff(p) => check_ser(loc, &format!("{name}/affine_serialize"), &what, p, cm, &want),
+                    TeRepr::Proj(p) => check_ser(loc, &format!("{name}/projective_serialize"), &what, p, cm, &want),
                 }
                 let mut ext = want.clone();
                 ext.push(0xa5);
@@ -1486,14 +1486,14 @@ where
                 let gp = te::Projective::<P>::deserialize_with_mode(&mut rd, cm, vm);
                 let pos_p = rd.pos;
                 if vm == Validate::No || in_sub {
-                    loc.check_at("te_shipped/affine_deserialize", matches!(&ga, Ok(p) if p.x == val.0 && p.y == val.1) && pos_a == want.len(), || {
+                    loc.check_at(&format!("{name}/affine_deserialize"), matches!(&ga, Ok(p) if p.x == val.0 && p.y == val.1) && pos_a == want.len(), || {
                         format!("{}: bytes {} read back as {:?}, consumed {pos_a} of {}", what(), hex(&want), ga.as_ref().map_err(|e| e.to_string()), want.len())
                     });
-                    loc.check_at("te_shipped/projective_deserialize", matches!(&gp, Ok(p) if te_same_proj(p, &val)) && pos_p == want.len(), || {
+                    loc.check_at(&format!("{name}/projective_deserialize"), matches!(&gp, Ok(p) if te_same_proj(p, &val)) && pos_p == want.len(), || {
                         format!("{}: bytes {} read back as {:?}, consumed {pos_p} of {}", what(), hex(&want), gp.as_ref().map_err(|e| e.to_string()), want.len())
                     });
                 } else {
-                    loc.check_at("te_shipped/deserialize_checked_outside_subgroup", ga.is_err() && gp.is_err(), || {
+                    loc.check_at(&format!("{name}/deserialize_checked_outside_subgroup"), ga.is_err() && gp.is_err(), || {
                         format!("{}: encoding {} of a curve point outside the subgroup accepted by a checked mode", what(), hex(&want))
                     });
                 }
@@ -1508,7 +1508,7 @@ where
                     2 => v2 == want && te::Affine::<P>::deserialize_uncompressed(&v2[..]).ok() == ga.ok(),
                     _ => v2 == want && te::Affine::<P>::deserialize_uncompressed_unchecked(&v2[..]).ok() == ga.ok(),
                 };
-                loc.check_at("te_shipped/convenience_methods", ok && conv, || format!("{}: serialize_compressed/uncompressed or deserialize_* differ from the with_mode forms", what()));
+                loc.check_at(&format!("{name}/convenience_methods"), ok && conv, || format!("{}: serialize_compressed/uncompressed or deserialize_* differ from the with_mode forms", what()));
             }));
         }
     }
